@@ -171,6 +171,13 @@ func GenFS(r *core.Rand, dir string, cfg *FSCfg) *FSLayout {
 		// module cache
 		if !pairOnly && r.Chance(2, 3) {
 			n := 1 + r.Intn(3)
+			// now and then the remote module cache lies outside the remote GOPATH (GOMODCACHE, or two users' trees):
+			// two remote roots then map to this one local GOPATH
+			remoteSrc, usedSrc := remote, used
+			if used && remote != lp && r.Chance(1, 3) {
+				remote = fmt.Sprintf("/mnt/cache%d/gomod", i)
+				used = false
+			}
 			for k := 0; k < n; k++ {
 				f := fmt.Sprintf("gp%dmod/", i) + r.Pick(modPkgs)
 				ex := present() || (k == 0 && !used)
@@ -190,6 +197,10 @@ func GenFS(r *core.Rand, dir string, cfg *FSCfg) *FSLayout {
 				}
 				addFrame(FSFrame{Remote: remote + "/pkg/mod/" + f, Local: lp + "/pkg/mod/" + f, Rel: f, Import: filepath.Dir(f), Class: FSGoPkg, Exists: ex, Pkg: pk, Explains: remote})
 				used = true
+			}
+			if remote != remoteSrc {
+				l.RemoteGOPATH[remote] = lp
+				remote, used = remoteSrc, usedSrc
 			}
 		}
 		if used {
